@@ -31,7 +31,7 @@ CLAIMED = {
          'contract-based deductive verification (Verus) + bit_vector lemmas', '7 C14'),
  'C15': ('proof', 'advance_attribute_id (real body, syn types stubbed) implements exactly the enum-discriminant rule rule_next_id and rejects an id iff it is already assigned or would count past 255; lemma_rule_fold: folding that step over ANY sequence of items yields pairwise distinct ids obeying the rule, or the first error. Partial claim: the loop of DataWorld::new, the emission of the constants and "fails to compile" are not covered (see level_note).',
          'contract-based deductive verification (Verus) of the id-assignment function + fold lemma', '7 C15'),
- 'C17': ('proof', 'events configuration: force_create pushes exactly the returned handle to created, force_destroy exactly the removed handle to destroyed, clear_events empties both and changes nothing else, every other &mut method has both logs in its frame, clone copies them. The generated archetype/world layer (the code ecs_world! emits for a two-archetype schema, obtained by evaluating the generator functions of macros/src/generate/world.rs as text: R-quote) and the default methods of traits Archetype/World are verified too: generated clear_events of archetype and world clears every archetype\'s logs.',
+ 'C17': ('proof', 'events configuration: force_create pushes exactly the returned handle to created, force_destroy exactly the removed handle to destroyed, clear_events empties both and changes nothing else, every other &mut method has both logs in its frame, clone copies them. The generated archetype/world layer (the code ecs_world! emits for a two-archetype schema, obtained by evaluating the generator functions of macros/src/generate/world.rs as text: R-quote) and the default methods of traits Archetype/World are verified too: generated clear_events of archetype and world clears every archetype\'s logs; the generated iter_created/iter_destroyed and EcsEventIterator::next yield exactly the concatenation of the archetypes\' lists, each handle once, in order (ghost view over the remaining elements of the slice iterators).',
          'contract-based deductive verification (Verus) under the events feature', '7 C17'),
  'C19': ('proof', 'The whole obligation set is re-extracted and re-verified under all 8 feature x profile configurations (quick: N=1; thorough: N in {1,2,3,16,17,32}); wrapping_version changes only the next() contract while every C03/C04 obligation still discharges unconditionally.',
          'contract-based deductive verification (Verus) as a configuration matrix', '7 C19'),
